@@ -187,7 +187,7 @@ def oracle(seed, tier):
                     break
         if len(samples) < 2:
             samples.append({"world": w})
-    return {"violations": viol[:30], "summary": {"cases": cases, "violations": len(viol), "nontrivial": nontriv, "input_distribution": dist}, "samples": samples}
+    return {"violations": trim_violations(viol, 30), "summary": {"cases": cases, "violations": len(viol), "nontrivial": nontriv, "input_distribution": dist}, "samples": samples}
 
 
 def correspondence(seed, tier):
